@@ -1,1 +1,150 @@
+// Kani harnesses for C04 (k-nearest-neighbour query of the linear search), child module of
+// src/algorithm/neighbour/linear_search.rs.  LinearKNNSearch::find ends in `.into_iter().flat_map(..).collect()`, which the
+// Verus units of specs/C04 cannot read (property.json: not_decided "k-NN queries"); this is its bounded stand-in.
+//
+// Points are `u8` ids; the metric is a harness-defined Distance<u8, f64> backed by a SYMBOLIC SYMMETRIC TABLE with zero
+// diagonal whose off-diagonal entries are drawn from {0.0, 1.0, 2.0, 3.0} (duplicates and ties included; find only
+// compares distances).  The data vector holds the ids n-1, .., 1, 0 (position i holds id n-1-i, so that a position is never
+// its own id); the query is a symbolic id in 0..=n: id n is a point outside the data set, any other id is one of the
+// data points (distance 0 to itself).  n and k are FIXED per harness.
+//
+// Obligations (property C04): "a k-nearest query returns exactly k entries, their distances are the k smallest (every
+// returned distance <= every non-returned one), each entry carries the true index / distance / point; k = 0 and k > n
+// are refused with Err".
 use super::*;
+
+const IDS: usize = 5;
+
+#[derive(Clone)]
+struct TableMetric {
+    t: [[f64; IDS]; IDS],
+}
+
+impl Distance<u8, f64> for TableMetric {
+    fn distance(&self, a: &u8, b: &u8) -> f64 {
+        self.t[*a as usize][*b as usize]
+    }
+}
+
+fn pick_d() -> f64 {
+    let s: u8 = kani::any();
+    kani::assume(s < 4);
+    match s {
+        0 => 0.0,
+        1 => 1.0,
+        2 => 2.0,
+        _ => 3.0,
+    }
+}
+
+/// symmetric table over ids 0..m, zero on the diagonal
+fn any_table(m: usize) -> TableMetric {
+    let mut t = [[0.0f64; IDS]; IDS];
+    for a in 0..m {
+        for b in (a + 1)..m {
+            let d = pick_d();
+            t[a][b] = d;
+            t[b][a] = d;
+        }
+    }
+    TableMetric { t }
+}
+
+fn ids_reversed(n: usize) -> Vec<u8> {
+    let mut v: Vec<u8> = Vec::with_capacity(n);
+    for i in 0..n {
+        v.push((n - 1 - i) as u8);
+    }
+    v
+}
+
+macro_rules! h_find {
+    ($name:ident, $n:expr, $k:expr, $unw:expr) => {
+        #[kani::proof]
+        #[kani::unwind($unw)]
+        fn $name() {
+            const N: usize = $n;
+            const K: usize = $k;
+            let metric = any_table(N + 1);
+            let q: u8 = kani::any();
+            kani::assume((q as usize) <= N);
+            let s: LinearKNNSearch<u8, f64, TableMetric> = match LinearKNNSearch::new(ids_reversed(N), metric.clone()) {
+                Ok(s) => s,
+                Err(_) => {
+                    assert!(false, "LinearKNNSearch::new: construction succeeds");
+                    return;
+                }
+            };
+            let r = match s.find(&q, K) {
+                Ok(r) => r,
+                Err(_) => {
+                    assert!(false, "LinearKNNSearch::find: succeeds for 1 <= k <= n");
+                    return;
+                }
+            };
+            assert!(r.len() == K, "LinearKNNSearch::find: returns exactly k entries");
+            let mut returned = [false; N];
+            for e in 0..K {
+                let (idx, d, p) = r[e];
+                assert!(idx < N, "LinearKNNSearch::find: every returned index is a position of the data vector");
+                assert!(!returned[idx], "LinearKNNSearch::find: no position is returned twice");
+                returned[idx] = true;
+                let id = (N - 1 - idx) as u8; // the id stored at position idx
+                assert!(d.to_bits() == metric.t[q as usize][id as usize].to_bits(), "LinearKNNSearch::find: each entry carries the true distance from the query to the point at its index");
+                assert!(*p == id && core::ptr::eq(p, &s.data[idx]), "LinearKNNSearch::find: each entry carries the point stored at its index");
+            }
+            for e in 0..K {
+                for i in 0..N {
+                    if !returned[i] {
+                        assert!(r[e].1 <= metric.t[q as usize][N - 1 - i], "LinearKNNSearch::find: every returned distance is <= every non-returned one (the k smallest)");
+                    }
+                }
+            }
+            // vacuity guards: a query outside the data set; a data point as query finds itself at distance 0
+            kani::cover!(q as usize == N && r[0].1 == 3.0);
+            kani::cover!((q as usize) < N && r[K - 1].1 == 0.0);
+        }
+    };
+}
+h_find!(c04_find_n1_k1, 1, 1, 8);
+h_find!(c04_find_n2_k1, 2, 1, 8);
+h_find!(c04_find_n2_k2, 2, 2, 8);
+h_find!(c04_find_n3_k1, 3, 1, 8);
+h_find!(c04_find_n3_k2, 3, 2, 8);
+h_find!(c04_find_n3_k3, 3, 3, 8);
+h_find!(c04_find_n4_k1, 4, 1, 10);
+h_find!(c04_find_n4_k2, 4, 2, 10);
+h_find!(c04_find_n4_k3, 4, 3, 10);
+h_find!(c04_find_n4_k4, 4, 4, 10);
+
+// k = 0 and k > n are refused
+macro_rules! h_find_refused {
+    ($name:ident, $n:expr, $k:expr, $unw:expr) => {
+        #[kani::proof]
+        #[kani::unwind($unw)]
+        fn $name() {
+            const N: usize = $n;
+            const K: usize = $k;
+            let metric = any_table(N + 1);
+            let q: u8 = kani::any();
+            kani::assume((q as usize) <= N);
+            let s: LinearKNNSearch<u8, f64, TableMetric> = match LinearKNNSearch::new(ids_reversed(N), metric) {
+                Ok(s) => s,
+                Err(_) => {
+                    assert!(false, "LinearKNNSearch::new: construction succeeds");
+                    return;
+                }
+            };
+            let r = s.find(&q, K);
+            assert!(r.is_err(), "LinearKNNSearch::find: k = 0 and k > n are refused with Err");
+            kani::cover!(r.is_err());
+        }
+    };
+}
+h_find_refused!(c04_find_refused_n0_k0, 0, 0, 8);
+h_find_refused!(c04_find_refused_n0_k1, 0, 1, 8);
+h_find_refused!(c04_find_refused_n1_k0, 1, 0, 8);
+h_find_refused!(c04_find_refused_n1_k2, 1, 2, 8);
+h_find_refused!(c04_find_refused_n3_k0, 3, 0, 8);
+h_find_refused!(c04_find_refused_n3_k4, 3, 4, 8);
+h_find_refused!(c04_find_refused_n4_k5, 4, 5, 10);
